@@ -8,7 +8,7 @@ import z3
 from safeds_stubgen.stubs_generator._stub_string_generator import StubsStringGenerator
 from vlib.ek.bstr import BStr, GList, I, show
 from vlib.ek.evalr import Ev, find_nodes
-from vlib.ek.job import THOROUGH, KJob, concrete
+from vlib.ek.job import THOROUGH, KJob, concrete, selftest
 
 fn = StubsStringGenerator._create_docstring_description_part
 
@@ -49,6 +49,15 @@ def description_lines():
                   replay=lambda i: (fn(i["d"], i["indent"]) != _py_reference(i["d"], i["indent"]), repr(fn(i["d"], i["indent"]))),
                   bound=f"all strings over {{a,b,space,newline,*}} up to {n} characters",
                   side=list(BStr.side))
+    def build(node):
+        BStr.side = []
+        e = Ev(node=node, globs=fn.__globals__)
+        o = e.lift(e.call(d, ""))
+        st = d.strip("\n")
+        return [d.wf(alphabet)], z3.And(o.endswith(BStr.const("\n")), o.pyslice(None, I(-1)).split("\n").length() == st.split("\n").length(),
+                                        z3.Not(e.raise_guard()))
+
+    selftest(job, "line_for_line", fn, build)
     rng = job.rng
     samples = [("".join(rng.choice("ab \n") for _ in range(rng.randint(0, n))), rng.choice(["", "    "])) for _ in range(100)]
     job.validate("_create_docstring_description_part", lambda s, i: concrete(Ev(fn).call(BStr.const(s), i)), fn, samples)
